@@ -71,6 +71,18 @@ Definition fslice_val (a lo hi st : gval) : res gval :=
   | _, _ => slice_val a lo hi st
   end.
 
+(** an IntervalArray object: the flat array and the interval length.  a[k, i] is the flat element k*n + i, read and
+    written with the total accessors of Model/Rfa.v (an out-of-range flat index reads 0 / writes nothing there; whether the
+    real code would raise IndexError is a question about these leaves, answered by the correspondence run) *)
+Definition ivl (l : list Qc) (n : Z) : gval := VClos "ivl" [VArr l; VInt n].
+
+Definition findex_val (a i : gval) : res gval :=
+  match a, i with
+  | VClos "ivl" [VArr l; VInt n], VTup [VInt k; VInt j] => Ok (VNum (getz l (k * n + j)))
+  | VClos "ivl" [VArr l; VInt n], VInt k => Ok (VNum (getz l k))
+  | _, _ => index_val a i
+  end.
+
 Section FunInterp.
 (** what the called names mean (positional and keyword arguments) *)
 Variable callf : string -> list gval -> list (string * gval) -> res gval.
@@ -140,7 +152,7 @@ Definition fcall (fn : string) (vs : list gval) (ks : list (string * gval)) : re
     match vs, ks with
     | [v], [] => to_array v
     | [v], [("dtype", VOpaque _)] => to_array v
-    | _, _ => Raise TypeError
+    | _, _ => callf fn vs ks
     end
   else callf fn vs ks.
 
@@ -185,20 +197,33 @@ Fixpoint feval (en : fenv) (e : gexpr) {struct e} : res gval :=
         let? va := feval en a in
         let? vb := feval en b in
         fbinop op va vb
-  | GIdx a i => let? va := feval en a in let? vi := feval en i in index_val va vi
+  | GIdx a i => let? va := feval en a in let? vi := feval en i in findex_val va vi
   | GSlice a lo hi st =>
       let? va := feval en a in let? vlo := feval en lo in let? vhi := feval en hi in let? vst := feval en st in
       fslice_val va vlo vhi vst
+  | GListComp body x it =>
+      let? vi := feval en it in
+      match vals_of vi with
+      | None => Raise TypeError
+      | Some items =>
+          let? vs := (fix each (items : list gval) : res (list gval) :=
+                        match items with
+                        | [] => Ok []
+                        | item :: rest => let? v := feval ((x, item) :: en) body in let? r := each rest in Ok (v :: r)
+                        end) items in
+          Ok (VTup vs)
+      end
   end.
 
 (** ---------- assignment ---------- *)
-Inductive loc := LocVar (x : string) | LocIdx (x : string) (i : Z) | LocSlice (x : string) (lo hi : Z).
+Inductive loc := LocVar (x : string) | LocIdx (x : string) (i : Z) | LocIdx2 (x : string) (k i : Z) | LocSlice (x : string) (lo hi : Z).
 
 Definition resolve_lhs (en : fenv) (l : glhs) : res loc :=
   match l with
   | LSelf _ => Raise OtherExn
   | LVar x => Ok (LocVar x)
-  | LIdx x i => let? vi := feval en i in match vi with VInt z => Ok (LocIdx x z) | _ => Raise TypeError end
+  | LIdx x i => let? vi := feval en i in
+                match vi with VInt z => Ok (LocIdx x z) | VTup [VInt k; VInt j] => Ok (LocIdx2 x k j) | _ => Raise TypeError end
   | LSlice x lo hi =>
       let? a := feval en lo in let? b := feval en hi in
       match a, b with VInt s, VInt e => Ok (LocSlice x s e) | _, _ => Raise TypeError end
@@ -207,7 +232,8 @@ Definition resolve_lhs (en : fenv) (l : glhs) : res loc :=
 Definition load (en : fenv) (lc : loc) : res gval :=
   match lc with
   | LocVar x => flookup en x
-  | LocIdx x i => let? a := flookup en x in index_val a (VInt i)
+  | LocIdx x i => let? a := flookup en x in findex_val a (VInt i)
+  | LocIdx2 x k j => let? a := flookup en x in findex_val a (VTup [VInt k; VInt j])
   | LocSlice x s e => let? a := flookup en x in fslice_val a (VInt s) (VInt e) VNoneV
   end.
 
@@ -228,6 +254,12 @@ Definition store (en : fenv) (lc : loc) (v : gval) : res fenv :=
           let n := Z.of_nat (length l) in
           let j := (if (i <? 0)%Z then n + i else i)%Z in
           if (j <? 0)%Z || (n <=? j)%Z then Raise IndexError else Ok ((x, VArr (set_nth l (Z.to_nat j) q)) :: en)
+      | _, _ => Raise TypeError
+      end
+  | LocIdx2 x k j =>
+      let? a := flookup en x in
+      match a, as_num v with
+      | VClos "ivl" [VArr l; VInt n], Some q => Ok ((x, ivl (setz l (k * n + j) q) n) :: en)
       | _, _ => Raise TypeError
       end
   | LocSlice x s e =>
@@ -370,6 +402,19 @@ Definition call_fun (callf : string -> list gval -> list (string * gval) -> res 
       match fbind_params formals actuals with
       | Raise e => ORaise e
       | Ok en => snd (fexec callf methf applyf powf en body)
+      end
+  end.
+
+(** a method of a class other than Weaver: the attributes the constructor stored are bound as variables "self.attr" *)
+Definition call_meth (callf : string -> list gval -> list (string * gval) -> res gval)
+    (methf : gval -> string -> list gval -> res gval) (applyf : gval -> list gval -> res gval) (powf : gval -> gval -> res gval)
+    (tbl : fun_table) (f : string) (attrs actuals : list (string * gval)) : outcome :=
+  match assoc f tbl with
+  | None => ORaise AttributeError
+  | Some (formals, body) =>
+      match fbind_params formals actuals with
+      | Raise e => ORaise e
+      | Ok en => snd (fexec callf methf applyf powf (en ++ attrs)%list body)
       end
   end.
 
